@@ -177,3 +177,24 @@ Definition placed (img : list Z) (off : Z) (bs : list Z) : Prop :=
 (* the i-th symbol of an enumeration (table index i) *)
 Definition dview : symview := ([], []).
 Definition vth (vs : list symview) (i : Z) : symview := nth (Z.to_nat i) vs dview.
+
+(* ---- the table as an object: what each call answers, whatever was called before (there is no
+        state in the meaning of a symbol table).  Calls: number of symbols, symbol n, the first k
+        symbols of an enumeration that is then abandoned, lookup by name. *)
+Inductive scall := CNum | CGet (n : Z) | CIter (k : Z) | CByName (q : list Z).
+Inductive sanswer :=
+| ANum (z : Z) | ASym (v : symview) | ASyms (l : list symview) | AByName (o : option (list symview)).
+Definition answer (strtab : list Z) (rows : list row) (c : scall) : sanswer :=
+  match c with
+  | CNum => ANum (zlen rows)
+  | CGet n => ASym (vth (views strtab rows) n)
+  | CIter k => ASyms (firstn (Z.to_nat k) (views strtab rows))
+  | CByName q => AByName (by_name_spec strtab rows q)
+  end.
+(* calls that are meaningful on a table of this length *)
+Definition call_ok (rows : list row) (c : scall) : bool :=
+  match c with
+  | CGet n => below n (zlen rows)
+  | CIter k => 0 <=? k
+  | _ => true
+  end.
